@@ -37,6 +37,7 @@ type Harness struct {
 	Expect        string // "" or "violation" (mutation self-tests)
 	StrLen        int    // string length bound of the bounded (stage B) encoding
 	StageATimeout int    // ms: limit for the unbounded SMT-string attempt
+	NoValidate    bool   // no native validation samples (harness depends on uncontrollable native state, e.g. wall-clock nanoseconds)
 	Upgrade       bool   // try to upgrade bounded unsat verdicts of obligations to unbounded ones
 	File          string
 }
@@ -259,6 +260,8 @@ func (w *World) load() error {
 								h.StageATimeout = n
 							case "upgrade":
 								h.Upgrade = true
+							case "novalidate":
+								h.NoValidate = true
 							case "also":
 								h.Also = strings.Split(v, ",")
 							}
